@@ -16,6 +16,10 @@ def c10(chk, tier):
         "non-trivial = >= 2 distinct labels (a gap) ")
     LC.replay_loads(chk, "MCLoad", QUICK if tier == "quick" else THOROUGH, want_refusals=False)
     LC.field_loads(chk, tier)
+    if tier != "quick":
+        # the repository's own tests: what their `load` stored, judged by TraceLoad.tla
+        from . import testtrace as TT
+        TT.judge(chk, ("C10",), k_expr="test_load", parts=("load",))
 
 
 def second_load_refused(chk, tier):
@@ -85,6 +89,9 @@ def dispatch_replay(chk, rp):
     if rp.get("kind") == "tz":
         from . import tz_checks as TZ
         return TZ.replay_file(chk, rp)
+    if rp.get("kind") == "testtrace":
+        from . import testtrace as TT
+        return TT.replay_file(chk, rp)
     if rp.get("kind") == "load_config":
         LC.replay_file(chk, rp)
     else:
